@@ -7,6 +7,7 @@ import (
 	"context"
 	"fmt"
 	"io"
+	"os"
 	"os/exec"
 	"sync"
 	"sync/atomic"
@@ -106,8 +107,13 @@ func genClientOps(o opts) []coCase {
 func runOneClientOps(c coCase) (sx.V, sx.V) {
 	var launches int32
 	o := vpOpts{Proto: c.Proto}
+	// every start of the plugin process leaves a byte in this file (counts launches made with Cmd as well)
+	lf, _ := os.CreateTemp("", "launches-*")
+	lf.Close()
+	defer os.Remove(lf.Name())
+	o.Plugin = map[string]interface{}{"launch_log": lf.Name()}
 	if c.FirstFails {
-		o.Plugin = map[string]interface{}{"cookie_value": "not-the-cookie-the-host-sends"}
+		o.Plugin["cookie_value"] = "not-the-cookie-the-host-sends"
 	}
 	cfg := vpClientConfig(o)
 	cfg.StartTimeout = 5 * time.Second
@@ -195,8 +201,9 @@ func runOneClientOps(c coCase) (sx.V, sx.V) {
 	}
 	nl := int(atomic.LoadInt32(&launches))
 	if c.Launch == "cmd" {
-		if cfg.Cmd.Process != nil {
-			nl = 1
+		time.Sleep(50 * time.Millisecond)
+		if b, err := os.ReadFile(lf.Name()); err == nil {
+			nl = len(b)
 		}
 	}
 	boundedKill(cl)
